@@ -81,35 +81,54 @@ Theorem C19_fail : forall cs cap t tr s tr' s' i c,
 Proof. exact fail_completes. Qed.
 Print Assumptions C19_fail.
 
-(* the method timeout.  Full statement: whenever a timeout is configured, the timer of any waiting call can fire and completes
-   it with TimedOut.  It is FALSE for Proxy::call_with_flags (KFlags), which awaits the reply without the timeout. *)
+(* the method timeout, at full strength: whenever a timeout is configured, the timer of ANY waiting call — Connection::call_method,
+   Proxy::call and (since fix 3eb91a8f) Proxy::call_with_flags — can fire and completes it with TimedOut *)
+Theorem C19_timeout :
+  forall cs cap t tr s i c, reach cs cap t tr s -> tmo s = true -> nth_error (callers s) i = Some c -> c_st c = CWaiting ->
+    exists s', step (LTimeout i) s = Some s' /\ st_at s' i = Some (CDone RTimedOut).
+Proof. exact timeout_full. Qed.
+Print Assumptions C19_timeout.
+
+(* ... and without a configured timeout no call ever times out *)
+Theorem C19_no_timeout_unless_configured : forall cs cap t tr s i, reach cs cap t tr s -> t = false -> step (LTimeout i) s = None.
+Proof. exact no_timeout_without_config. Qed.
+Print Assumptions C19_no_timeout_unless_configured.
+
+(* ------------------------------------------------------------------ the reply gets into the channel.
+   Full statement: whenever the reader is idle, the next item on the socket is a message answering a waiting call and the
+   method-return channel has room, the reader's next three actions put exactly that message at the end of the channel
+   (from where C19_sees takes it to the caller).
+   It is FALSE once the application has made a MessageStream for exactly the rule type='method_return' or type='error'
+   (label LHijack): Connection::add_match inserts the stream's sender into msg_senders under the key of the connection's own entry. *)
 Definition C19_full_statement : Prop :=
-  forall cs cap t tr s i c, reach cs cap t tr s -> tmo s = true -> nth_error (callers s) i = Some c -> c_st c = CWaiting ->
-    exists s', step (LTimeout i) s = Some s' /\ st_at s' i = Some (CDone RTimedOut).
+  forall cs cap0 t tr s i c m rest, reach cs cap0 t tr s ->
+    reader s = RIdle -> socket s = IMsg m :: rest ->
+    nth_error (callers s) i = Some c -> c_st c = CWaiting -> answers m (c_serial c) = true -> qlen (ch s) < cap (ch s) ->
+    exists s', exec [LRead; LPush; LNext] s = Some s' /\ log (ch s') = log (ch s) ++ [IMsg m] /\ reader s' = RIdle /\ socket s' = rest.
 
-Definition Known_C19 (c : caller) : Prop := c_kind c = KFlags.
+(* the decidable class: the history contains such a subscription *)
+Definition Known_C19 (tr : list label) : bool := existsb (fun l => match l with LHijack _ => true | _ => false end) tr.
 
-Theorem C19_timeout_partial :
-  forall cs cap t tr s i c, reach cs cap t tr s -> tmo s = true -> nth_error (callers s) i = Some c -> c_st c = CWaiting ->
-    ~ Known_C19 c ->
-    exists s', step (LTimeout i) s = Some s' /\ st_at s' i = Some (CDone RTimedOut).
-Proof. intros cs cap t tr s i c Hr Ht Hc Hst Hk. exact (timeout_partial cs cap t tr s i c Hr Ht Hc Hst (fun _ => Hk)). Qed.
-Print Assumptions C19_timeout_partial.
+Theorem C19_delivery_partial :
+  forall cs cap0 t tr s i c m rest, reach cs cap0 t tr s -> Known_C19 tr = false ->
+    reader s = RIdle -> socket s = IMsg m :: rest ->
+    nth_error (callers s) i = Some c -> c_st c = CWaiting -> answers m (c_serial c) = true -> qlen (ch s) < cap (ch s) ->
+    exists s', exec [LRead; LPush; LNext] s = Some s' /\ log (ch s') = log (ch s) ++ [IMsg m] /\ reader s' = RIdle /\ socket s' = rest.
+Proof. exact delivery_partial_stated. Qed.
+Print Assumptions C19_delivery_partial.
 
-Theorem C19_flags_call_refuted : ~ C19_full_statement.
-Proof.
-  intros H. apply flags_call_refuted. intros cs cap t tr s i c Hr Ht Hc Hst _. exact (H cs cap t tr s i c Hr Ht Hc Hst).
-Qed.
-Print Assumptions C19_flags_call_refuted.
+Theorem C19_return_rule_hijack_refuted : ~ C19_full_statement.
+Proof. exact hijack_refuted_stated. Qed.
+Print Assumptions C19_return_rule_hijack_refuted.
 
-(* the witness: one call_with_flags call, written, timeout configured, silent peer — reachable, and no action but a delivery
-   by the peer is enabled ever after *)
-Theorem C19_flags_call_waits_for_ever :
-  reach [(KFlags, 1%N)] 8 true [LSub 0; LLock 0; LSend 0 true] flags_witness /\
-  tmo flags_witness = true /\ st_at flags_witness 0 = Some CWaiting /\
-  forall tr' s', exec tr' flags_witness = Some s' -> (forall it, ~ In (LArrive it) tr') -> s' = flags_witness.
-Proof. split; [exact flags_witness_reach | split; [reflexivity | split; [reflexivity | exact flags_call_waits_for_ever]]]. Qed.
-Print Assumptions C19_flags_call_waits_for_ever.
+(* what it means: from the moment the entry for type='method_return' is replaced, no METHOD_RETURN ever enters the channel again,
+   whatever anybody does afterwards — every pending and every later call that is answered with a return waits for ever
+   (or until its timeout / the end of the connection) *)
+Theorem C19_hijacked_returns_lost_for_ever : forall s0 s tr' s',
+  step (LHijack false) s0 = Some s -> exec tr' s = Some s' ->
+  forall m, In (IMsg m) (log (ch s')) -> m_type m = TReturn -> In (IMsg m) (log (ch s)).
+Proof. exact hijacked_returns_lost. Qed.
+Print Assumptions C19_hijacked_returns_lost_for_ever.
 
 (* the executable replay used by the correspondence check stays inside the step relation *)
 Theorem C19_run_sound : forall cs cap t tr s, exec tr (init cs cap t) = Some s -> reach cs cap t tr s.
